@@ -287,6 +287,9 @@ class Reader:
             raise IOError("Reader not open; call `open` before `read`")
         if hasattr(self, 'raw_channel_order'):
             csel = self.raw_channel_order[csel]
+        if isinstance(nsel, np.integer):
+            # the mtscomp reader only takes a python integer as a single sample index
+            nsel = int(nsel)
         darray = self._raw[nsel, :].astype(np.float32, copy=True)[..., csel]
         darray *= self.channel_conversion_sample2v[self.type][csel]
         if sync:
